@@ -178,3 +178,31 @@ func init() {
 		return sched.Config{Bounds: b, Iterative: true}, c15concBody
 	}})
 }
+
+// Race pass: the set operations of the concurrent scenarios by real goroutines under the race detector.
+func c15setRace() {
+	A, B, C := "10.0.0.1:1", "10.0.0.2:1", "10.0.0.3:1"
+	a, b, c := NewWithType(A, TypeMain), NewWithType(B, TypeMain), NewWithType(C, TypeBackup)
+	s := NewSet(a, b, c)
+	var wg vsync.WaitGroup
+	run := func(f func()) { wg.Add(1); go func() { defer wg.Done(); f() }() }
+	run(func() { s.MarkHostUnhealthy(a); s.MarkHostHealthy(a) })
+	run(func() { s.MarkHostUnhealthy(a); s.MarkHostUnhealthy(b) })
+	run(func() { s.Remove(NewWithType(B, TypeMain)); s.Add(NewWithType(B, TypeMain)) })
+	run(func() { s.ReplaceAll([]*Host{NewWithType(A, TypeMain), NewWithType(C, TypeBackup)}) })
+	run(func() {
+		for i := 0; i < 4; i++ {
+			for _, h := range s.Healthy() {
+				_ = h.Addr
+			}
+			_ = s.Random()
+			_ = s.All()
+			_ = s.Len()
+		}
+	})
+	wg.Wait()
+}
+
+func init() {
+	sched.Register(&sched.Scenario{Name: "C15/set-race", Race: c15setRace})
+}
